@@ -398,6 +398,47 @@ theorem save_read_labels {α : Type} [DecidableEq α] (hash space nl semi : α) 
 
 example : readLabels 59 true (firstLine 10 (headerLine 35 32 10 59 true [[97, 98], [99]])) = [[97, 98], [99]] := by decide
 
+/-- **when `save_coeff` writes a header line at all**: `np.savetxt(header=h)` writes none for the empty string, i.e. (call as
+found, `always = false`) exactly when the time column is not included and the joined labels are empty — a single pulse with
+the empty label; the repaired call (fixes/C14-5.patch, `always = true`) always writes it. -/
+theorem header_written {α : Type} (always : Bool) (hash space nl semi : α) (inctime : Bool) (labels : List (List α)) :
+    headerLineV always hash space nl semi inctime labels =
+      if always = true ∨ inctime = true ∨ joinSep semi labels ≠ [] then
+        some (headerLine hash space nl semi inctime labels) else none := by
+  unfold headerLineV
+  cases always <;> cases inctime <;> cases joinSep semi labels <;> simp
+
+/-- **save/read round trip on labels, either shape of `save_coeff`**: whenever a header line is written
+(`header_written`: always for the repaired call) the labels survive. -/
+theorem save_read_labels_partial {α : Type} [DecidableEq α] (always : Bool) (hash space nl semi : α) (inctime : Bool)
+    (labels : List (List α)) (hne : labels ≠ [])
+    (hsemi : ∀ l ∈ labels, semi ∉ l) (hnl : ∀ l ∈ labels, nl ∉ l)
+    (h1 : hash ≠ nl) (h2 : space ≠ nl) (h3 : semi ≠ nl)
+    (hw : always = true ∨ inctime = true ∨ joinSep semi labels ≠ []) :
+    (headerLineV always hash space nl semi inctime labels).map (fun l => readLabels semi inctime (firstLine nl l)) =
+      some labels := by
+  rw [header_written, if_pos hw, Option.map_some,
+    save_read_labels hash space nl semi inctime labels hne hsemi hnl h1 h2 h3]
+
+/-- **… repaired** (fixes/C14-5.patch): no condition on the header being non-empty. -/
+theorem save_read_labels_repaired {α : Type} [DecidableEq α] (hash space nl semi : α) (inctime : Bool)
+    (labels : List (List α)) (hne : labels ≠ [])
+    (hsemi : ∀ l ∈ labels, semi ∉ l) (hnl : ∀ l ∈ labels, nl ∉ l)
+    (h1 : hash ≠ nl) (h2 : space ≠ nl) (h3 : semi ≠ nl) :
+    (headerLineV true hash space nl semi inctime labels).map (fun l => readLabels semi inctime (firstLine nl l)) =
+      some labels :=
+  save_read_labels_partial true hash space nl semi inctime labels hne hsemi hnl h1 h2 h3 (Or.inl rfl)
+
+example : (headerLineV true 35 32 10 59 false [[]]).map (fun l => readLabels 59 false (firstLine 10 l)) = some [[]] := by
+  decide
+
+/-- **the full statement is false for the call as found**: a single pulse labelled `""` saved without the time column gets
+no header line (the file starts with its first data row, which `read_coeff` then takes for the header: `KeyError`), although
+the label contains neither `;` nor a newline. -/
+theorem C14_counterexample_empty_header :
+    headerLineV false 35 32 10 59 false [[]] = none ∧
+    headerLineV true 35 32 10 59 false [[]] = some [35, 32, 10] := by decide
+
 /-- **save/read round trip on shape**: with at least two time points, every pulse gets back an array with
 one entry per merged time point — provided the table has more than one column (`inctime` or ≥ 2 pulses). -/
 theorem save_read_shape (inctime : Bool) (rows n i : Nat) (hr : 2 ≤ rows) (hi : i < n)
